@@ -412,7 +412,10 @@ func (b *BinaryExpr) SQL() string {
 
 func (u *UnaryExpr) SQL() string {
 	p := exprPrec(u)
-	return string(u.Op) + strOpt(u.Op == OpNot, " ") + paren(p, u.Expr)
+	operand := paren(p, u.Expr)
+	// "- -x" must not be printed as "--x", which would start a comment.
+	sep := strOpt(u.Op == OpNot || u.Op == OpMinus && strings.HasPrefix(operand, "-"), " ")
+	return string(u.Op) + sep + operand
 }
 
 func (i *InExpr) SQL() string {
